@@ -2,6 +2,7 @@
    and evaluate its right-hand side -/
 import Driver.Wire
 import MxlVerif.Model.C16
+import Driver.H_c05
 open Lean Mxl Mxl.Wire Mxl.C16
 namespace Driver.H_c16
 
@@ -13,6 +14,8 @@ def errJ : Mxl.C05.LErr → Json
   | .valueError => .arr #[.str "ValueError"]
   | .indexError => .arr #[.str "IndexError"]
   | .keyError k => .arr #[.str "KeyError", .str k]
+  | .typeError => .arr #[.str "TypeError"]
+  | .notImplementedError => .arr #[.str "NotImplementedError"]
 
 def rxnJ (rx : LinRxn) : Json :=
   let st : List Json :=
@@ -38,18 +41,76 @@ def evalRhs (m : LinModel) (ev : Eval) : Json :=
   let C : Mxl.Name → Rat := fun c => (ev.C.lookup c).getD 0
   .arr (m.vars.map fun kv => Json.arr #[.str (render kv.1), ratJ (linRhs m.rxns E v C kv.1)]).toArray
 
+def parseSlot (s : String) : Except String Slot :=
+  if s == "EXT" then .ok .ext
+  else match s.splitOn "__" with
+    | [c, i] => match i.toNat? with
+      | some n => .ok (.pos c n)
+      | none => .error s!"bad slot {s}"
+    | _ => .error s!"bad slot {s}"
+
+def slotsJ (l : List Slot) : Json := strsJ (l.map render)
+
+def slotsResJ : Except Mxl.C05.LErr (List Slot) → Json
+  | .ok l => Json.mkObj [("ok", slotsJ l)]
+  | .error e => Json.mkObj [("err", errJ e)]
+
+def modelJ (m : LinModel) : List (String × Json) := [
+  ("vars", .arr (m.vars.map fun kv => Json.arr #[.str (render kv.1), ratJ kv.2]).toArray),
+  ("rxns", .arr (m.rxns.map rxnJ).toArray)]
+
+def resultJ : Except Mxl.C05.LErr LinModel → Json
+  | .error e => Json.mkObj [("err", errJ e)]
+  | .ok m => Json.mkObj [("ok", Json.mkObj (modelJ m))]
+
 def handle (j : Json) : Except String Json := do
   let lv ← jList (jPair jStr jNat) (← field j "lv")
-  let maps ← jList (jPair jStr (jList jNat)) (← field j "maps")
+  let maps ← jList (jPair jStr (jList jInt)) (← field j "maps")
   let init ← jList (jPair jStr (jList jNat)) (fieldD j "init" (.arr #[]))
   let rxns ← jList (jPair jStr (jList (jPair jStr jInt))) (← field j "rxns")
   let evals ← jList jEval (fieldD j "evals" (.arr #[]))
-  match linearBuild rxns lv maps init with
-  | .error e => pure (Json.mkObj [("err", errJ e)])
+  let raw ← jList (jPair jStr (jList (jPair jStr Driver.H_c05.jCoef))) (fieldD j "raw" (.arr #[]))
+  -- the pinned helper `_map_substrates_to_labelmap` on given (substrates, map) pairs
+  let helperIn ← jList (jPair (jList jStr) (jList jNat)) (fieldD j "helper" (.arr #[]))
+  let helper ← helperIn.mapM fun sl => do
+    let subs ← sl.1.mapM parseSlot
+    pure (slotsResJ (mapSubstratesToLabelmap subs sl.2))
+  -- the vocabulary of the theorems for the named reactions: padded substrate / product positions and
+  -- the documented sources of a map (compared with the real helpers' outputs)
+  let paddedFor ← jList jStr (fieldD j "padded" (.arr #[]))
+  let padded := paddedFor.filterMap fun name =>
+    match rxns.lookup name, maps.lookup name with
+    | some st, some lm =>
+      let r : Mxl.C05.BRxn := { name, fn := fun _ => 0, args := [], stoich := st }
+      some (Json.arr #[.str name, slotsJ (paddedSubs lv r), slotsJ (paddedProds lv r),
+        slotsJ (documentedSources (paddedSubs lv r) ((Driver.H_c05.natMap lm).getD []))])
+    | _, _ => none
+  let isos := Json.arr ((isosOf lv).map fun kv => Json.arr #[.str kv.1, slotsJ kv.2]).toArray
+  -- positional enrichment of isotopomer states and the isotopomers a marginal sums over
+  let isoStates ← jList (jAssoc jRat) (fieldD j "iso_states" (.arr #[]))
+  let allSlots := (isosOf lv).flatMap (·.2)
+  let enrich := isoStates.map fun st =>
+    let σ : Mxl.C05.LName → Rat := fun n => (st.lookup (Driver.H_c05.render n)).getD 0
+    Json.arr (allSlots.map fun s => Json.arr #[.str (render s), ratJ (enrichOf lv σ s)]).toArray
+  let labelled := Json.arr (lv.flatMap fun kn => (List.range kn.2).map fun i =>
+    Json.arr #[.str (render (.pos kn.1 i)), strsJ ((labelledAt kn.1 kn.2 i).map Driver.H_c05.render)]).toArray
+  let nat : String :=
+    if !raw.isEmpty then "na"
+    else if (resultJ (linearBuildI rxns lv maps init)).compress != (resultJ (linearBuildP rxns lv maps raw init)).compress
+    then "differs"
+    else match maps.mapM fun km => (Driver.H_c05.natMap km.2).map fun l => (km.1, l) with
+    | none => "na"
+    | some nmaps =>
+      if (resultJ (linearBuild rxns lv nmaps init)).compress == (resultJ (linearBuildP rxns lv maps raw init)).compress
+      then "same" else "differs"
+  let padlen := Json.arr (maps.map fun km =>
+    Json.arr #[.str km.1, toJson (padLen (isosOf lv) rxns km.1)]).toArray
+  let common := [("padlen", padlen), ("helper", Json.arr helper.toArray), ("padded", Json.arr padded.toArray), ("isos", isos),
+    ("enrich", Json.arr enrich.toArray), ("labelled", labelled), ("nat", Json.str nat)]
+  match linearBuildP rxns lv maps raw init with
+  | .error e => pure (Json.mkObj ([("err", errJ e)] ++ common))
   | .ok m =>
-    pure (Json.mkObj [("ok", Json.mkObj [
-      ("vars", .arr (m.vars.map fun kv => Json.arr #[.str (render kv.1), ratJ kv.2]).toArray),
-      ("rxns", .arr (m.rxns.map rxnJ).toArray),
-      ("rhs", .arr (evals.map (evalRhs m)).toArray)])])
+    pure (Json.mkObj ([("ok", Json.mkObj (modelJ m ++ [
+      ("rhs", .arr (evals.map (evalRhs m)).toArray)]))] ++ common))
 
 end Driver.H_c16
